@@ -236,6 +236,28 @@ def rule_m3(ctx):
         while not isinstance(n, ast.stmt):
             n = parents[n]
         return n
+    # the matrix channel is whatever is unpacked / copied from the result
+    # of the recursive call (by provenance, not by the name `matrices`)
+    self_calls = {id(c) for c in _self_calls(f)}
+    res_names = {dotted(n.targets[0]) for n in ast.walk(f.node)
+                 if isinstance(n, ast.Assign) and id(n.value) in self_calls
+                 and isinstance(n.targets[0], ast.Name)}
+    mat_names = set()
+    for n in ast.walk(f.node):
+        if isinstance(n, ast.Assign):
+            v = n.value
+            src_is_res = (isinstance(v, ast.Name) and v.id in res_names) \
+                or id(v) in self_calls
+            if not src_is_res:
+                continue
+            t = n.targets[0]
+            if isinstance(t, ast.Tuple) and t.elts and isinstance(
+                    t.elts[0], ast.Name):
+                mat_names.add(t.elts[0].id)
+            elif isinstance(t, ast.Name) and t.id not in res_names:
+                mat_names.add(t.id)
+    if not mat_names:
+        mat_names = {"matrices"}
     for n in ast.walk(f.node):
         if isinstance(n, ast.ListComp) and isinstance(n.elt, ast.BinOp) \
                 and isinstance(n.elt.op, ast.Add):
@@ -255,9 +277,11 @@ def rule_m3(ctx):
                 continue
             L, R = dotted(n.left), dotted(n.right)
             names = {L, R}
-            if "matrices" in names:
-                other = (names - {"matrices"}).pop() if len(names) == 2 else L
-                mat_side[pol] = ("left", other) if R == "matrices" \
+            hit = names & mat_names
+            if hit:
+                mn = next(iter(hit))
+                other = (names - {mn}).pop() if len(names) == 2 else L
+                mat_side[pol] = ("left", other) if R == mn \
                     else ("right", other)
                 sites[("m", pol)] = stmt_of(n)
     if set(word_side) != {True, False} or set(mat_side) != {True, False}:
@@ -309,26 +333,43 @@ def rule_m3(ctx):
     # edge_words dispatch: word value vs single generator
     for d in defs_edge:
         pass
-    # maxlen prefix order
+    # maxlen prefix order.  The zero-length contribution is recognised by
+    # where it comes from: the self-call with length literal 0
+    zero_ids = {id(c) for c in _self_calls(f)
+                if const_value(_length_arg(f, c)) == 0}
+    zres = {dotted(n.targets[0]) for n in ast.walk(f.node)
+            if isinstance(n, ast.Assign) and id(n.value) in zero_ids
+            and isinstance(n.targets[0], ast.Name)}
+    add_names = set(zres)
+    for n in ast.walk(f.node):
+        if isinstance(n, ast.Assign) and (
+                (isinstance(n.value, ast.Name) and n.value.id in zres)
+                or id(n.value) in zero_ids):
+            for x in ast.walk(n.targets[0]):
+                if isinstance(x, ast.Name):
+                    add_names.add(x.id)
+
+    def is_add(txt):
+        return txt in add_names or "additional" in txt
     wpre = mpre = None
     wst = mst = None
     for n in ast.walk(f.node):
         if isinstance(n, ast.Assign) and isinstance(n.value, ast.BinOp) \
                 and isinstance(n.value.op, ast.Add) \
-                and dotted(n.targets[0]) == "accepted_words":
+                and isinstance(n.targets[0], ast.Name):
             L, R = dotted(n.value.left), dotted(n.value.right)
-            if "additional" in L:
+            if is_add(L) and dotted(n.targets[0]) == R:
                 wpre, wst = "first", n
-            elif "additional" in R:
+            elif is_add(R) and dotted(n.targets[0]) == L:
                 wpre, wst = "last", n
         if isinstance(n, ast.Assign) and isinstance(n.value, ast.Call) \
                 and dotted(n.value.func) == "np.concatenate" \
                 and n.value.args and isinstance(n.value.args[0], ast.List) \
                 and len(n.value.args[0].elts) == 2:
             a, b = [dotted(x) for x in n.value.args[0].elts]
-            if "additional" in a:
+            if is_add(a):
                 mpre, mst = "first", n
-            elif "additional" in b:
+            elif is_add(b):
                 mpre, mst = "last", n
     if wpre is None or mpre is None:
         r.note("M3", loc(f, f.node), FN,
